@@ -160,7 +160,8 @@ procedure subscope()
  ss_found_check: if (fs # NONE /\ ~closed[fs]) { bR := bR \ {self}; hnd[self] := fs; goto ss_ret; };
  ss_rep:   if (fs # NONE) {
              call report(fs);
- ss_rm:      call removeWithRLock(fs);
+ ss_rm:      call removeWithRLock(fs);       \* under the key as given ...
+ ss_rm2:     call removeWithRLock(fs);       \* ... and under the sanitized key (the same one here: nothing left to delete)
  ss_clr:     call clearMetrics(fs);
            };
  ss_runlock: bR := bR \ {self};
@@ -185,6 +186,16 @@ procedure inc(h)
            return;
 }
 
+\* Close of sub-scope object h (the steps of scope.Close that a non-root scope takes: the per-scope close mutex is
+\* uncontended in the model's universe - one closer per object at a time)
+procedure closesub(ch)
+{
+ sc_mu:    skip;
+ sc_cas:   objClosed := objClosed \cup {ch}; closed[ch] := TRUE;
+ sc_done:  skip;
+           return;
+}
+
 \* Gauge.Update(v) on the root's gauge
 procedure update(v)
 {
@@ -205,7 +216,7 @@ fair process (app \in Apps)
            else if (Script[self][ip] = "upd1") { call update(1); }
            else if (Script[self][ip] = "upd2") { call update(2); }
            else if (Script[self][ip] = "close") {
-             if (hnd[self] # NONE) { objClosed := objClosed \cup {hnd[self]}; closed[hnd[self]] := TRUE; };
+             if (hnd[self] # NONE) { call closesub(hnd[self]); };
            };
  a_adv:    ip := ip + 1;
          };
@@ -270,7 +281,7 @@ CFreeW(o) == cW[o] = NOBODY /\ cR[o] = {}
 LastOf(s) == s[Len(s)]
 
 VARIABLES o, lc, lp, g, lv, wasSet, ro, co, cur, visR, visS, wasClosed, due, 
-          fs, closedAtCall, h, v, ip
+          fs, closedAtCall, h, ch, v, ip
 
 vars == << pc, regS, regR, nobj, closed, doneCh, hasCtr, ctrGen, curr, prev, 
            gval, gflag, bR, bW, cR, cW, closeMu, delivered, promised, allIncs, 
@@ -278,7 +289,7 @@ vars == << pc, regS, regR, nobj, closed, doneCh, hasCtr, ctrGen, curr, prev,
            closeCalled, closeReturned, lateCall, unflushed, rclosed, 
            barrierOk, closeBeforeFlush, loopEndedOk, hnd, ticks, quiesced, 
            stack, o, lc, lp, g, lv, wasSet, ro, co, cur, visR, visS, 
-           wasClosed, due, fs, closedAtCall, h, v, ip >>
+           wasClosed, due, fs, closedAtCall, h, ch, v, ip >>
 
 ProcSet == (Apps) \cup (Passers) \cup {TICK} \cup (Closers) \cup {FINAL}
 
@@ -343,6 +354,8 @@ Init == (* Global variables *)
         /\ closedAtCall = [ self \in ProcSet |-> {}]
         (* Procedure inc *)
         /\ h = [ self \in ProcSet |-> defaultInitValue]
+        (* Procedure closesub *)
+        /\ ch = [ self \in ProcSet |-> defaultInitValue]
         (* Procedure update *)
         /\ v = [ self \in ProcSet |-> defaultInitValue]
         (* Process app *)
@@ -371,7 +384,7 @@ sr_c(self) == /\ pc[self] = "sr_c"
                               closeBeforeFlush, loopEndedOk, hnd, ticks, 
                               quiesced, stack, o, lc, lp, lv, wasSet, ro, co, 
                               cur, visR, visS, wasClosed, due, fs, 
-                              closedAtCall, h, v, ip >>
+                              closedAtCall, h, ch, v, ip >>
 
 cv_load_prev(self) == /\ pc[self] = "cv_load_prev"
                       /\ IF DevNonAtomicDelta
@@ -390,7 +403,7 @@ cv_load_prev(self) == /\ pc[self] = "cv_load_prev"
                                       closeBeforeFlush, loopEndedOk, hnd, 
                                       ticks, quiesced, stack, o, g, lv, wasSet, 
                                       ro, co, cur, visR, visS, wasClosed, due, 
-                                      fs, closedAtCall, h, v, ip >>
+                                      fs, closedAtCall, h, ch, v, ip >>
 
 cv_load_curr(self) == /\ pc[self] = "cv_load_curr"
                       /\ IF DevNonAtomicDelta
@@ -411,7 +424,7 @@ cv_load_curr(self) == /\ pc[self] = "cv_load_curr"
                                       closeBeforeFlush, loopEndedOk, hnd, 
                                       ticks, quiesced, stack, o, g, lv, wasSet, 
                                       ro, co, cur, visR, visS, wasClosed, due, 
-                                      fs, closedAtCall, h, v, ip >>
+                                      fs, closedAtCall, h, ch, v, ip >>
 
 cv_cas(self) == /\ pc[self] = "cv_cas"
                 /\ IF DevNonAtomicDelta
@@ -431,7 +444,7 @@ cv_cas(self) == /\ pc[self] = "cv_cas"
                                 barrierOk, closeBeforeFlush, loopEndedOk, hnd, 
                                 ticks, quiesced, stack, o, lc, lp, g, lv, 
                                 wasSet, ro, co, cur, visR, visS, wasClosed, 
-                                due, fs, closedAtCall, h, v, ip >>
+                                due, fs, closedAtCall, h, ch, v, ip >>
 
 rp_counter(self) == /\ pc[self] = "rp_counter"
                     /\ delivered' = delivered + (lc[self] - lp[self])
@@ -448,7 +461,7 @@ rp_counter(self) == /\ pc[self] = "rp_counter"
                                     loopEndedOk, hnd, ticks, quiesced, stack, 
                                     o, lc, lp, g, lv, wasSet, ro, co, cur, 
                                     visR, visS, wasClosed, due, fs, 
-                                    closedAtCall, h, v, ip >>
+                                    closedAtCall, h, ch, v, ip >>
 
 sr_c_unlock(self) == /\ pc[self] = "sr_c_unlock"
                      /\ cR' = [cR EXCEPT ![o[self]] = cR[o[self]] \ {self}]
@@ -463,7 +476,7 @@ sr_c_unlock(self) == /\ pc[self] = "sr_c_unlock"
                                      loopEndedOk, hnd, ticks, quiesced, stack, 
                                      o, lc, lp, g, lv, wasSet, ro, co, cur, 
                                      visR, visS, wasClosed, due, fs, 
-                                     closedAtCall, h, v, ip >>
+                                     closedAtCall, h, ch, v, ip >>
 
 gr_swap(self) == /\ pc[self] = "gr_swap"
                  /\ IF o[self] # ROOT
@@ -485,7 +498,7 @@ gr_swap(self) == /\ pc[self] = "gr_swap"
                                  barrierOk, closeBeforeFlush, loopEndedOk, hnd, 
                                  ticks, quiesced, stack, o, lc, lp, g, ro, co, 
                                  cur, visR, visS, wasClosed, due, fs, 
-                                 closedAtCall, h, v, ip >>
+                                 closedAtCall, h, ch, v, ip >>
 
 gr_load(self) == /\ pc[self] = "gr_load"
                  /\ IF WeakLoadBeforeSwap
@@ -507,7 +520,7 @@ gr_load(self) == /\ pc[self] = "gr_load"
                                  barrierOk, closeBeforeFlush, loopEndedOk, hnd, 
                                  ticks, quiesced, stack, o, lc, lp, g, ro, co, 
                                  cur, visR, visS, wasClosed, due, fs, 
-                                 closedAtCall, h, v, ip >>
+                                 closedAtCall, h, ch, v, ip >>
 
 gr_chk(self) == /\ pc[self] = "gr_chk"
                 /\ IF ~wasSet[self]
@@ -522,7 +535,7 @@ gr_chk(self) == /\ pc[self] = "gr_chk"
                                 barrierOk, closeBeforeFlush, loopEndedOk, hnd, 
                                 ticks, quiesced, stack, o, lc, lp, g, lv, 
                                 wasSet, ro, co, cur, visR, visS, wasClosed, 
-                                due, fs, closedAtCall, h, v, ip >>
+                                due, fs, closedAtCall, h, ch, v, ip >>
 
 rp_gauge(self) == /\ pc[self] = "rp_gauge"
                   /\ gdl' = Append(gdl, lv[self])
@@ -538,7 +551,7 @@ rp_gauge(self) == /\ pc[self] = "rp_gauge"
                                   closeBeforeFlush, loopEndedOk, hnd, ticks, 
                                   quiesced, stack, o, lc, lp, g, lv, wasSet, 
                                   ro, co, cur, visR, visS, wasClosed, due, fs, 
-                                  closedAtCall, h, v, ip >>
+                                  closedAtCall, h, ch, v, ip >>
 
 sr_ret(self) == /\ pc[self] = "sr_ret"
                 /\ pc' = [pc EXCEPT ![self] = Head(stack[self]).pc]
@@ -557,7 +570,7 @@ sr_ret(self) == /\ pc[self] = "sr_ret"
                                 closeReturned, lateCall, unflushed, rclosed, 
                                 barrierOk, closeBeforeFlush, loopEndedOk, hnd, 
                                 ticks, quiesced, ro, co, cur, visR, visS, 
-                                wasClosed, due, fs, closedAtCall, h, v, ip >>
+                                wasClosed, due, fs, closedAtCall, h, ch, v, ip >>
 
 report(self) == sr_c(self) \/ cv_load_prev(self) \/ cv_load_curr(self)
                    \/ cv_cas(self) \/ rp_counter(self) \/ sr_c_unlock(self)
@@ -577,7 +590,7 @@ rm_runlock(self) == /\ pc[self] = "rm_runlock"
                                     loopEndedOk, hnd, ticks, quiesced, stack, 
                                     o, lc, lp, g, lv, wasSet, ro, co, cur, 
                                     visR, visS, wasClosed, due, fs, 
-                                    closedAtCall, h, v, ip >>
+                                    closedAtCall, h, ch, v, ip >>
 
 rm_lock(self) == /\ pc[self] = "rm_lock"
                  /\ BFreeW
@@ -592,7 +605,7 @@ rm_lock(self) == /\ pc[self] = "rm_lock"
                                  barrierOk, closeBeforeFlush, loopEndedOk, hnd, 
                                  ticks, quiesced, stack, o, lc, lp, g, lv, 
                                  wasSet, ro, co, cur, visR, visS, wasClosed, 
-                                 due, fs, closedAtCall, h, v, ip >>
+                                 due, fs, closedAtCall, h, ch, v, ip >>
 
 rm_del(self) == /\ pc[self] = "rm_del"
                 /\ IF ro[self] = ROOT
@@ -614,7 +627,7 @@ rm_del(self) == /\ pc[self] = "rm_del"
                                 closeBeforeFlush, loopEndedOk, hnd, ticks, 
                                 quiesced, stack, o, lc, lp, g, lv, wasSet, ro, 
                                 co, cur, visR, visS, wasClosed, due, fs, 
-                                closedAtCall, h, v, ip >>
+                                closedAtCall, h, ch, v, ip >>
 
 rm_relock(self) == /\ pc[self] = "rm_relock"
                    /\ BFreeR
@@ -631,7 +644,7 @@ rm_relock(self) == /\ pc[self] = "rm_relock"
                                    barrierOk, closeBeforeFlush, loopEndedOk, 
                                    hnd, ticks, quiesced, o, lc, lp, g, lv, 
                                    wasSet, co, cur, visR, visS, wasClosed, due, 
-                                   fs, closedAtCall, h, v, ip >>
+                                   fs, closedAtCall, h, ch, v, ip >>
 
 removeWithRLock(self) == rm_runlock(self) \/ rm_lock(self) \/ rm_del(self)
                             \/ rm_relock(self)
@@ -651,7 +664,7 @@ cm_c(self) == /\ pc[self] = "cm_c"
                               closeBeforeFlush, loopEndedOk, hnd, ticks, 
                               quiesced, o, lc, lp, g, lv, wasSet, ro, cur, 
                               visR, visS, wasClosed, due, fs, closedAtCall, h, 
-                              v, ip >>
+                              ch, v, ip >>
 
 clearMetrics(self) == cm_c(self)
 
@@ -668,7 +681,7 @@ rr_begin(self) == /\ pc[self] = "rr_begin"
                                   closeBeforeFlush, loopEndedOk, hnd, ticks, 
                                   quiesced, stack, o, lc, lp, g, lv, wasSet, 
                                   ro, co, cur, visR, visS, wasClosed, fs, 
-                                  closedAtCall, h, v, ip >>
+                                  closedAtCall, h, ch, v, ip >>
 
 rp_rlock(self) == /\ pc[self] = "rp_rlock"
                   /\ BFreeR
@@ -683,7 +696,8 @@ rp_rlock(self) == /\ pc[self] = "rp_rlock"
                                   barrierOk, closeBeforeFlush, loopEndedOk, 
                                   hnd, ticks, quiesced, stack, o, lc, lp, g, 
                                   lv, wasSet, ro, co, cur, visR, visS, 
-                                  wasClosed, due, fs, closedAtCall, h, v, ip >>
+                                  wasClosed, due, fs, closedAtCall, h, ch, v, 
+                                  ip >>
 
 rp_visit(self) == /\ pc[self] = "rp_visit"
                   /\ \/ /\ regR /\ ~visR[self]
@@ -708,7 +722,7 @@ rp_visit(self) == /\ pc[self] = "rp_visit"
                                   barrierOk, closeBeforeFlush, loopEndedOk, 
                                   hnd, ticks, quiesced, stack, o, lc, lp, g, 
                                   lv, wasSet, ro, co, wasClosed, due, fs, 
-                                  closedAtCall, h, v, ip >>
+                                  closedAtCall, h, ch, v, ip >>
 
 rp_closed(self) == /\ pc[self] = "rp_closed"
                    /\ wasClosed' = [wasClosed EXCEPT ![self] = closed[cur[self]]]
@@ -722,7 +736,7 @@ rp_closed(self) == /\ pc[self] = "rp_closed"
                                    barrierOk, closeBeforeFlush, loopEndedOk, 
                                    hnd, ticks, quiesced, stack, o, lc, lp, g, 
                                    lv, wasSet, ro, co, cur, visR, visS, due, 
-                                   fs, closedAtCall, h, v, ip >>
+                                   fs, closedAtCall, h, ch, v, ip >>
 
 rp_report(self) == /\ pc[self] = "rp_report"
                    /\ /\ o' = [o EXCEPT ![self] = cur[self]]
@@ -750,7 +764,7 @@ rp_report(self) == /\ pc[self] = "rp_report"
                                    barrierOk, closeBeforeFlush, loopEndedOk, 
                                    hnd, ticks, quiesced, ro, co, cur, visR, 
                                    visS, wasClosed, due, fs, closedAtCall, h, 
-                                   v, ip >>
+                                   ch, v, ip >>
 
 rp_chk(self) == /\ pc[self] = "rp_chk"
                 /\ IF (DevClosedAfterReport /\ closed[cur[self]]) \/ (~DevClosedAfterReport /\ wasClosed[self])
@@ -771,7 +785,7 @@ rp_chk(self) == /\ pc[self] = "rp_chk"
                                 barrierOk, closeBeforeFlush, loopEndedOk, hnd, 
                                 ticks, quiesced, o, lc, lp, g, lv, wasSet, co, 
                                 cur, visR, visS, wasClosed, due, fs, 
-                                closedAtCall, h, v, ip >>
+                                closedAtCall, h, ch, v, ip >>
 
 rp_clr(self) == /\ pc[self] = "rp_clr"
                 /\ /\ co' = [co EXCEPT ![self] = cur[self]]
@@ -789,7 +803,7 @@ rp_clr(self) == /\ pc[self] = "rp_clr"
                                 barrierOk, closeBeforeFlush, loopEndedOk, hnd, 
                                 ticks, quiesced, o, lc, lp, g, lv, wasSet, ro, 
                                 cur, visR, visS, wasClosed, due, fs, 
-                                closedAtCall, h, v, ip >>
+                                closedAtCall, h, ch, v, ip >>
 
 rp_next(self) == /\ pc[self] = "rp_next"
                  /\ pc' = [pc EXCEPT ![self] = "rp_visit"]
@@ -802,7 +816,7 @@ rp_next(self) == /\ pc[self] = "rp_next"
                                  barrierOk, closeBeforeFlush, loopEndedOk, hnd, 
                                  ticks, quiesced, stack, o, lc, lp, g, lv, 
                                  wasSet, ro, co, cur, visR, visS, wasClosed, 
-                                 due, fs, closedAtCall, h, v, ip >>
+                                 due, fs, closedAtCall, h, ch, v, ip >>
 
 rp_runlock(self) == /\ pc[self] = "rp_runlock"
                     /\ bR' = bR \ {self}
@@ -817,7 +831,7 @@ rp_runlock(self) == /\ pc[self] = "rp_runlock"
                                     loopEndedOk, hnd, ticks, quiesced, stack, 
                                     o, lc, lp, g, lv, wasSet, ro, co, cur, 
                                     visR, visS, wasClosed, due, fs, 
-                                    closedAtCall, h, v, ip >>
+                                    closedAtCall, h, ch, v, ip >>
 
 rp_flush(self) == /\ pc[self] = "rp_flush"
                   /\ unflushed' = FALSE
@@ -832,7 +846,7 @@ rp_flush(self) == /\ pc[self] = "rp_flush"
                                   closeBeforeFlush, loopEndedOk, hnd, ticks, 
                                   quiesced, stack, o, lc, lp, g, lv, wasSet, 
                                   ro, co, cur, visR, visS, wasClosed, due, fs, 
-                                  closedAtCall, h, v, ip >>
+                                  closedAtCall, h, ch, v, ip >>
 
 rp_purge(self) == /\ pc[self] = "rp_purge"
                   /\ IF DevPurgeAnyPass /\ closed[ROOT]
@@ -851,7 +865,7 @@ rp_purge(self) == /\ pc[self] = "rp_purge"
                                   barrierOk, closeBeforeFlush, loopEndedOk, 
                                   hnd, ticks, quiesced, o, lc, lp, g, lv, 
                                   wasSet, ro, co, cur, visR, visS, wasClosed, 
-                                  due, fs, closedAtCall, h, v, ip >>
+                                  due, fs, closedAtCall, h, ch, v, ip >>
 
 rr_end(self) == /\ pc[self] = "rr_end"
                 /\ stale' = (stale \/ (inflight = {self} /\ due[self] = Len(updc) /\ Len(updc) > 0
@@ -872,7 +886,7 @@ rr_end(self) == /\ pc[self] = "rr_end"
                                 lateCall, unflushed, rclosed, barrierOk, 
                                 closeBeforeFlush, loopEndedOk, hnd, ticks, 
                                 quiesced, o, lc, lp, g, lv, wasSet, ro, co, fs, 
-                                closedAtCall, h, v, ip >>
+                                closedAtCall, h, ch, v, ip >>
 
 pass(self) == rr_begin(self) \/ rp_rlock(self) \/ rp_visit(self)
                  \/ rp_closed(self) \/ rp_report(self) \/ rp_chk(self)
@@ -895,7 +909,7 @@ pg_lock(self) == /\ pc[self] = "pg_lock"
                                  barrierOk, closeBeforeFlush, loopEndedOk, hnd, 
                                  ticks, quiesced, o, lc, lp, g, lv, wasSet, ro, 
                                  co, cur, visR, visS, wasClosed, due, fs, 
-                                 closedAtCall, h, v, ip >>
+                                 closedAtCall, h, ch, v, ip >>
 
 purge(self) == pg_lock(self)
 
@@ -917,7 +931,7 @@ ss_closed_check(self) == /\ pc[self] = "ss_closed_check"
                                          closeBeforeFlush, loopEndedOk, ticks, 
                                          quiesced, stack, o, lc, lp, g, lv, 
                                          wasSet, ro, co, cur, visR, visS, 
-                                         wasClosed, due, fs, h, v, ip >>
+                                         wasClosed, due, fs, h, ch, v, ip >>
 
 ss_rlock(self) == /\ pc[self] = "ss_rlock"
                   /\ BFreeR
@@ -933,7 +947,7 @@ ss_rlock(self) == /\ pc[self] = "ss_rlock"
                                   barrierOk, closeBeforeFlush, loopEndedOk, 
                                   hnd, ticks, quiesced, stack, o, lc, lp, g, 
                                   lv, wasSet, ro, co, cur, visR, visS, 
-                                  wasClosed, due, closedAtCall, h, v, ip >>
+                                  wasClosed, due, closedAtCall, h, ch, v, ip >>
 
 ss_found_check(self) == /\ pc[self] = "ss_found_check"
                         /\ IF fs[self] # NONE /\ ~closed[fs[self]]
@@ -953,7 +967,7 @@ ss_found_check(self) == /\ pc[self] = "ss_found_check"
                                         loopEndedOk, ticks, quiesced, stack, o, 
                                         lc, lp, g, lv, wasSet, ro, co, cur, 
                                         visR, visS, wasClosed, due, fs, 
-                                        closedAtCall, h, v, ip >>
+                                        closedAtCall, h, ch, v, ip >>
 
 ss_rep(self) == /\ pc[self] = "ss_rep"
                 /\ IF fs[self] # NONE
@@ -983,12 +997,12 @@ ss_rep(self) == /\ pc[self] = "ss_rep"
                                 closeReturned, lateCall, unflushed, rclosed, 
                                 barrierOk, closeBeforeFlush, loopEndedOk, hnd, 
                                 ticks, quiesced, ro, co, cur, visR, visS, 
-                                wasClosed, due, fs, closedAtCall, h, v, ip >>
+                                wasClosed, due, fs, closedAtCall, h, ch, v, ip >>
 
 ss_rm(self) == /\ pc[self] = "ss_rm"
                /\ /\ ro' = [ro EXCEPT ![self] = fs[self]]
                   /\ stack' = [stack EXCEPT ![self] = << [ procedure |->  "removeWithRLock",
-                                                           pc        |->  "ss_clr",
+                                                           pc        |->  "ss_rm2",
                                                            ro        |->  ro[self] ] >>
                                                        \o stack[self]]
                /\ pc' = [pc EXCEPT ![self] = "rm_runlock"]
@@ -1001,7 +1015,25 @@ ss_rm(self) == /\ pc[self] = "ss_rm"
                                closeBeforeFlush, loopEndedOk, hnd, ticks, 
                                quiesced, o, lc, lp, g, lv, wasSet, co, cur, 
                                visR, visS, wasClosed, due, fs, closedAtCall, h, 
-                               v, ip >>
+                               ch, v, ip >>
+
+ss_rm2(self) == /\ pc[self] = "ss_rm2"
+                /\ /\ ro' = [ro EXCEPT ![self] = fs[self]]
+                   /\ stack' = [stack EXCEPT ![self] = << [ procedure |->  "removeWithRLock",
+                                                            pc        |->  "ss_clr",
+                                                            ro        |->  ro[self] ] >>
+                                                        \o stack[self]]
+                /\ pc' = [pc EXCEPT ![self] = "rm_runlock"]
+                /\ UNCHANGED << regS, regR, nobj, closed, doneCh, hasCtr, 
+                                ctrGen, curr, prev, gval, gflag, bR, bW, cR, 
+                                cW, closeMu, delivered, promised, allIncs, 
+                                negDelta, updc, upd, gdl, inflight, stale, 
+                                objClosed, reacqClosed, closeCalled, 
+                                closeReturned, lateCall, unflushed, rclosed, 
+                                barrierOk, closeBeforeFlush, loopEndedOk, hnd, 
+                                ticks, quiesced, o, lc, lp, g, lv, wasSet, co, 
+                                cur, visR, visS, wasClosed, due, fs, 
+                                closedAtCall, h, ch, v, ip >>
 
 ss_clr(self) == /\ pc[self] = "ss_clr"
                 /\ /\ co' = [co EXCEPT ![self] = fs[self]]
@@ -1019,7 +1051,7 @@ ss_clr(self) == /\ pc[self] = "ss_clr"
                                 barrierOk, closeBeforeFlush, loopEndedOk, hnd, 
                                 ticks, quiesced, o, lc, lp, g, lv, wasSet, ro, 
                                 cur, visR, visS, wasClosed, due, fs, 
-                                closedAtCall, h, v, ip >>
+                                closedAtCall, h, ch, v, ip >>
 
 ss_runlock(self) == /\ pc[self] = "ss_runlock"
                     /\ bR' = bR \ {self}
@@ -1034,7 +1066,7 @@ ss_runlock(self) == /\ pc[self] = "ss_runlock"
                                     loopEndedOk, hnd, ticks, quiesced, stack, 
                                     o, lc, lp, g, lv, wasSet, ro, co, cur, 
                                     visR, visS, wasClosed, due, fs, 
-                                    closedAtCall, h, v, ip >>
+                                    closedAtCall, h, ch, v, ip >>
 
 ss_lock(self) == /\ pc[self] = "ss_lock"
                  /\ BFreeW
@@ -1049,7 +1081,7 @@ ss_lock(self) == /\ pc[self] = "ss_lock"
                                  barrierOk, closeBeforeFlush, loopEndedOk, hnd, 
                                  ticks, quiesced, stack, o, lc, lp, g, lv, 
                                  wasSet, ro, co, cur, visR, visS, wasClosed, 
-                                 due, fs, closedAtCall, h, v, ip >>
+                                 due, fs, closedAtCall, h, ch, v, ip >>
 
 ss_ins(self) == /\ pc[self] = "ss_ins"
                 /\ IF regS # NONE /\ ~WeakNoRecheckUnderLock
@@ -1069,7 +1101,7 @@ ss_ins(self) == /\ pc[self] = "ss_ins"
                                 closeBeforeFlush, loopEndedOk, ticks, quiesced, 
                                 stack, o, lc, lp, g, lv, wasSet, ro, co, cur, 
                                 visR, visS, wasClosed, due, fs, closedAtCall, 
-                                h, v, ip >>
+                                h, ch, v, ip >>
 
 ss_ret(self) == /\ pc[self] = "ss_ret"
                 /\ reacqClosed' = (reacqClosed \/ (hnd[self] # NONE /\ hnd[self] \in closedAtCall[self]))
@@ -1085,12 +1117,12 @@ ss_ret(self) == /\ pc[self] = "ss_ret"
                                 lateCall, unflushed, rclosed, barrierOk, 
                                 closeBeforeFlush, loopEndedOk, hnd, ticks, 
                                 quiesced, o, lc, lp, g, lv, wasSet, ro, co, 
-                                cur, visR, visS, wasClosed, due, h, v, ip >>
+                                cur, visR, visS, wasClosed, due, h, ch, v, ip >>
 
 subscope(self) == ss_closed_check(self) \/ ss_rlock(self)
                      \/ ss_found_check(self) \/ ss_rep(self) \/ ss_rm(self)
-                     \/ ss_clr(self) \/ ss_runlock(self) \/ ss_lock(self)
-                     \/ ss_ins(self) \/ ss_ret(self)
+                     \/ ss_rm2(self) \/ ss_clr(self) \/ ss_runlock(self)
+                     \/ ss_lock(self) \/ ss_ins(self) \/ ss_ret(self)
 
 gc_probe(self) == /\ pc[self] = "gc_probe"
                   /\ CFreeR(h[self])
@@ -1106,7 +1138,8 @@ gc_probe(self) == /\ pc[self] = "gc_probe"
                                   barrierOk, closeBeforeFlush, loopEndedOk, 
                                   hnd, ticks, quiesced, stack, o, lc, lp, g, 
                                   lv, wasSet, ro, co, cur, visR, visS, 
-                                  wasClosed, due, fs, closedAtCall, h, v, ip >>
+                                  wasClosed, due, fs, closedAtCall, h, ch, v, 
+                                  ip >>
 
 gc_lock(self) == /\ pc[self] = "gc_lock"
                  /\ CFreeW(h[self])
@@ -1125,7 +1158,7 @@ gc_lock(self) == /\ pc[self] = "gc_lock"
                                  closeBeforeFlush, loopEndedOk, hnd, ticks, 
                                  quiesced, stack, o, lc, lp, g, lv, wasSet, ro, 
                                  co, cur, visR, visS, wasClosed, due, fs, 
-                                 closedAtCall, h, v, ip >>
+                                 closedAtCall, h, ch, v, ip >>
 
 c_inc(self) == /\ pc[self] = "c_inc"
                /\ curr' = [curr EXCEPT ![h[self]][ctrGen[h[self]]] = curr[h[self]][ctrGen[h[self]]] + 1]
@@ -1146,9 +1179,56 @@ c_inc(self) == /\ pc[self] = "c_inc"
                                rclosed, barrierOk, closeBeforeFlush, 
                                loopEndedOk, hnd, ticks, o, lc, lp, g, lv, 
                                wasSet, ro, co, cur, visR, visS, wasClosed, due, 
-                               fs, closedAtCall, v, ip >>
+                               fs, closedAtCall, ch, v, ip >>
 
 inc(self) == gc_probe(self) \/ gc_lock(self) \/ c_inc(self)
+
+sc_mu(self) == /\ pc[self] = "sc_mu"
+               /\ TRUE
+               /\ pc' = [pc EXCEPT ![self] = "sc_cas"]
+               /\ UNCHANGED << regS, regR, nobj, closed, doneCh, hasCtr, 
+                               ctrGen, curr, prev, gval, gflag, bR, bW, cR, cW, 
+                               closeMu, delivered, promised, allIncs, negDelta, 
+                               updc, upd, gdl, inflight, stale, objClosed, 
+                               reacqClosed, closeCalled, closeReturned, 
+                               lateCall, unflushed, rclosed, barrierOk, 
+                               closeBeforeFlush, loopEndedOk, hnd, ticks, 
+                               quiesced, stack, o, lc, lp, g, lv, wasSet, ro, 
+                               co, cur, visR, visS, wasClosed, due, fs, 
+                               closedAtCall, h, ch, v, ip >>
+
+sc_cas(self) == /\ pc[self] = "sc_cas"
+                /\ objClosed' = (objClosed \cup {ch[self]})
+                /\ closed' = [closed EXCEPT ![ch[self]] = TRUE]
+                /\ pc' = [pc EXCEPT ![self] = "sc_done"]
+                /\ UNCHANGED << regS, regR, nobj, doneCh, hasCtr, ctrGen, curr, 
+                                prev, gval, gflag, bR, bW, cR, cW, closeMu, 
+                                delivered, promised, allIncs, negDelta, updc, 
+                                upd, gdl, inflight, stale, reacqClosed, 
+                                closeCalled, closeReturned, lateCall, 
+                                unflushed, rclosed, barrierOk, 
+                                closeBeforeFlush, loopEndedOk, hnd, ticks, 
+                                quiesced, stack, o, lc, lp, g, lv, wasSet, ro, 
+                                co, cur, visR, visS, wasClosed, due, fs, 
+                                closedAtCall, h, ch, v, ip >>
+
+sc_done(self) == /\ pc[self] = "sc_done"
+                 /\ TRUE
+                 /\ pc' = [pc EXCEPT ![self] = Head(stack[self]).pc]
+                 /\ ch' = [ch EXCEPT ![self] = Head(stack[self]).ch]
+                 /\ stack' = [stack EXCEPT ![self] = Tail(stack[self])]
+                 /\ UNCHANGED << regS, regR, nobj, closed, doneCh, hasCtr, 
+                                 ctrGen, curr, prev, gval, gflag, bR, bW, cR, 
+                                 cW, closeMu, delivered, promised, allIncs, 
+                                 negDelta, updc, upd, gdl, inflight, stale, 
+                                 objClosed, reacqClosed, closeCalled, 
+                                 closeReturned, lateCall, unflushed, rclosed, 
+                                 barrierOk, closeBeforeFlush, loopEndedOk, hnd, 
+                                 ticks, quiesced, o, lc, lp, g, lv, wasSet, ro, 
+                                 co, cur, visR, visS, wasClosed, due, fs, 
+                                 closedAtCall, h, v, ip >>
+
+closesub(self) == sc_mu(self) \/ sc_cas(self) \/ sc_done(self)
 
 gu_store_val(self) == /\ pc[self] = "gu_store_val"
                       /\ IF WeakFlagBeforeValue
@@ -1168,7 +1248,7 @@ gu_store_val(self) == /\ pc[self] = "gu_store_val"
                                       loopEndedOk, hnd, ticks, quiesced, stack, 
                                       o, lc, lp, g, lv, wasSet, ro, co, cur, 
                                       visR, visS, wasClosed, due, fs, 
-                                      closedAtCall, h, v, ip >>
+                                      closedAtCall, h, ch, v, ip >>
 
 gu_store_flag(self) == /\ pc[self] = "gu_store_flag"
                        /\ IF WeakFlagBeforeValue
@@ -1190,7 +1270,8 @@ gu_store_flag(self) == /\ pc[self] = "gu_store_flag"
                                        closeBeforeFlush, loopEndedOk, hnd, 
                                        ticks, quiesced, o, lc, lp, g, lv, 
                                        wasSet, ro, co, cur, visR, visS, 
-                                       wasClosed, due, fs, closedAtCall, h, ip >>
+                                       wasClosed, due, fs, closedAtCall, h, ch, 
+                                       ip >>
 
 update(self) == gu_store_val(self) \/ gu_store_flag(self)
 
@@ -1205,7 +1286,7 @@ a_loop(self) == /\ pc[self] = "a_loop"
                                       /\ fs' = [fs EXCEPT ![self] = NONE]
                                       /\ closedAtCall' = [closedAtCall EXCEPT ![self] = {}]
                                       /\ pc' = [pc EXCEPT ![self] = "ss_closed_check"]
-                                      /\ UNCHANGED << closed, objClosed, h, v >>
+                                      /\ UNCHANGED << h, ch, v >>
                                  ELSE /\ IF Script[self][ip[self]] = "inc"
                                             THEN /\ IF hnd[self] # NONE
                                                        THEN /\ /\ h' = [h EXCEPT ![self] = hnd[self]]
@@ -1217,8 +1298,7 @@ a_loop(self) == /\ pc[self] = "a_loop"
                                                        ELSE /\ pc' = [pc EXCEPT ![self] = "a_adv"]
                                                             /\ UNCHANGED << stack, 
                                                                             h >>
-                                                 /\ UNCHANGED << closed, 
-                                                                 objClosed, v >>
+                                                 /\ UNCHANGED << ch, v >>
                                             ELSE /\ IF Script[self][ip[self]] = "rinc"
                                                        THEN /\ /\ h' = [h EXCEPT ![self] = ROOT]
                                                                /\ stack' = [stack EXCEPT ![self] = << [ procedure |->  "inc",
@@ -1226,8 +1306,7 @@ a_loop(self) == /\ pc[self] = "a_loop"
                                                                                                         h         |->  h[self] ] >>
                                                                                                     \o stack[self]]
                                                             /\ pc' = [pc EXCEPT ![self] = "gc_probe"]
-                                                            /\ UNCHANGED << closed, 
-                                                                            objClosed, 
+                                                            /\ UNCHANGED << ch, 
                                                                             v >>
                                                        ELSE /\ IF Script[self][ip[self]] = "upd1"
                                                                   THEN /\ /\ stack' = [stack EXCEPT ![self] = << [ procedure |->  "update",
@@ -1236,8 +1315,7 @@ a_loop(self) == /\ pc[self] = "a_loop"
                                                                                                                \o stack[self]]
                                                                           /\ v' = [v EXCEPT ![self] = 1]
                                                                        /\ pc' = [pc EXCEPT ![self] = "gu_store_val"]
-                                                                       /\ UNCHANGED << closed, 
-                                                                                       objClosed >>
+                                                                       /\ ch' = ch
                                                                   ELSE /\ IF Script[self][ip[self]] = "upd2"
                                                                              THEN /\ /\ stack' = [stack EXCEPT ![self] = << [ procedure |->  "update",
                                                                                                                               pc        |->  "a_adv",
@@ -1245,35 +1323,35 @@ a_loop(self) == /\ pc[self] = "a_loop"
                                                                                                                           \o stack[self]]
                                                                                      /\ v' = [v EXCEPT ![self] = 2]
                                                                                   /\ pc' = [pc EXCEPT ![self] = "gu_store_val"]
-                                                                                  /\ UNCHANGED << closed, 
-                                                                                                  objClosed >>
+                                                                                  /\ ch' = ch
                                                                              ELSE /\ IF Script[self][ip[self]] = "close"
                                                                                         THEN /\ IF hnd[self] # NONE
-                                                                                                   THEN /\ objClosed' = (objClosed \cup {hnd[self]})
-                                                                                                        /\ closed' = [closed EXCEPT ![hnd[self]] = TRUE]
-                                                                                                   ELSE /\ TRUE
-                                                                                                        /\ UNCHANGED << closed, 
-                                                                                                                        objClosed >>
-                                                                                        ELSE /\ TRUE
-                                                                                             /\ UNCHANGED << closed, 
-                                                                                                             objClosed >>
-                                                                                  /\ pc' = [pc EXCEPT ![self] = "a_adv"]
-                                                                                  /\ UNCHANGED << stack, 
-                                                                                                  v >>
+                                                                                                   THEN /\ /\ ch' = [ch EXCEPT ![self] = hnd[self]]
+                                                                                                           /\ stack' = [stack EXCEPT ![self] = << [ procedure |->  "closesub",
+                                                                                                                                                    pc        |->  "a_adv",
+                                                                                                                                                    ch        |->  ch[self] ] >>
+                                                                                                                                                \o stack[self]]
+                                                                                                        /\ pc' = [pc EXCEPT ![self] = "sc_mu"]
+                                                                                                   ELSE /\ pc' = [pc EXCEPT ![self] = "a_adv"]
+                                                                                                        /\ UNCHANGED << stack, 
+                                                                                                                        ch >>
+                                                                                        ELSE /\ pc' = [pc EXCEPT ![self] = "a_adv"]
+                                                                                             /\ UNCHANGED << stack, 
+                                                                                                             ch >>
+                                                                                  /\ v' = v
                                                             /\ h' = h
                                       /\ UNCHANGED << fs, closedAtCall >>
                       ELSE /\ pc' = [pc EXCEPT ![self] = "Done"]
-                           /\ UNCHANGED << closed, objClosed, stack, fs, 
-                                           closedAtCall, h, v >>
-                /\ UNCHANGED << regS, regR, nobj, doneCh, hasCtr, ctrGen, curr, 
-                                prev, gval, gflag, bR, bW, cR, cW, closeMu, 
-                                delivered, promised, allIncs, negDelta, updc, 
-                                upd, gdl, inflight, stale, reacqClosed, 
-                                closeCalled, closeReturned, lateCall, 
-                                unflushed, rclosed, barrierOk, 
-                                closeBeforeFlush, loopEndedOk, hnd, ticks, 
-                                quiesced, o, lc, lp, g, lv, wasSet, ro, co, 
-                                cur, visR, visS, wasClosed, due, ip >>
+                           /\ UNCHANGED << stack, fs, closedAtCall, h, ch, v >>
+                /\ UNCHANGED << regS, regR, nobj, closed, doneCh, hasCtr, 
+                                ctrGen, curr, prev, gval, gflag, bR, bW, cR, 
+                                cW, closeMu, delivered, promised, allIncs, 
+                                negDelta, updc, upd, gdl, inflight, stale, 
+                                objClosed, reacqClosed, closeCalled, 
+                                closeReturned, lateCall, unflushed, rclosed, 
+                                barrierOk, closeBeforeFlush, loopEndedOk, hnd, 
+                                ticks, quiesced, o, lc, lp, g, lv, wasSet, ro, 
+                                co, cur, visR, visS, wasClosed, due, ip >>
 
 a_adv(self) == /\ pc[self] = "a_adv"
                /\ ip' = [ip EXCEPT ![self] = ip[self] + 1]
@@ -1287,7 +1365,7 @@ a_adv(self) == /\ pc[self] = "a_adv"
                                closeBeforeFlush, loopEndedOk, hnd, ticks, 
                                quiesced, stack, o, lc, lp, g, lv, wasSet, ro, 
                                co, cur, visR, visS, wasClosed, due, fs, 
-                               closedAtCall, h, v >>
+                               closedAtCall, h, ch, v >>
 
 app(self) == a_loop(self) \/ a_adv(self)
 
@@ -1314,7 +1392,7 @@ p_pass(self) == /\ pc[self] = "p_pass"
                                 closeReturned, lateCall, unflushed, rclosed, 
                                 barrierOk, closeBeforeFlush, loopEndedOk, hnd, 
                                 ticks, quiesced, o, lc, lp, g, lv, wasSet, ro, 
-                                co, fs, closedAtCall, h, v, ip >>
+                                co, fs, closedAtCall, h, ch, v, ip >>
 
 passer(self) == p_pass(self)
 
@@ -1336,7 +1414,7 @@ rl_select == /\ pc[TICK] = "rl_select"
                              rclosed, barrierOk, closeBeforeFlush, loopEndedOk, 
                              hnd, quiesced, stack, o, lc, lp, g, lv, wasSet, 
                              ro, co, cur, visR, visS, wasClosed, due, fs, 
-                             closedAtCall, h, v, ip >>
+                             closedAtCall, h, ch, v, ip >>
 
 rl_tick == /\ pc[TICK] = "rl_tick"
            /\ IF closed[ROOT]
@@ -1350,7 +1428,7 @@ rl_tick == /\ pc[TICK] = "rl_tick"
                            rclosed, barrierOk, closeBeforeFlush, loopEndedOk, 
                            hnd, ticks, quiesced, stack, o, lc, lp, g, lv, 
                            wasSet, ro, co, cur, visR, visS, wasClosed, due, fs, 
-                           closedAtCall, h, v, ip >>
+                           closedAtCall, h, ch, v, ip >>
 
 rl_pass == /\ pc[TICK] = "rl_pass"
            /\ stack' = [stack EXCEPT ![TICK] = << [ procedure |->  "pass",
@@ -1374,7 +1452,7 @@ rl_pass == /\ pc[TICK] = "rl_pass"
                            closeCalled, closeReturned, lateCall, unflushed, 
                            rclosed, barrierOk, closeBeforeFlush, loopEndedOk, 
                            hnd, ticks, quiesced, o, lc, lp, g, lv, wasSet, ro, 
-                           co, fs, closedAtCall, h, v, ip >>
+                           co, fs, closedAtCall, h, ch, v, ip >>
 
 rl_exit == /\ pc[TICK] = "rl_exit"
            /\ TRUE
@@ -1387,7 +1465,7 @@ rl_exit == /\ pc[TICK] = "rl_exit"
                            rclosed, barrierOk, closeBeforeFlush, loopEndedOk, 
                            hnd, ticks, quiesced, stack, o, lc, lp, g, lv, 
                            wasSet, ro, co, cur, visR, visS, wasClosed, due, fs, 
-                           closedAtCall, h, v, ip >>
+                           closedAtCall, h, ch, v, ip >>
 
 ticker == rl_select \/ rl_tick \/ rl_pass \/ rl_exit
 
@@ -1403,7 +1481,7 @@ cl_call(self) == /\ pc[self] = "cl_call"
                                  closeBeforeFlush, loopEndedOk, hnd, ticks, 
                                  quiesced, stack, o, lc, lp, g, lv, wasSet, ro, 
                                  co, cur, visR, visS, wasClosed, due, fs, 
-                                 closedAtCall, h, v, ip >>
+                                 closedAtCall, h, ch, v, ip >>
 
 cl_mu(self) == /\ pc[self] = "cl_mu"
                /\ IF ~DevNoCloseMutex
@@ -1421,7 +1499,7 @@ cl_mu(self) == /\ pc[self] = "cl_mu"
                                closeBeforeFlush, loopEndedOk, hnd, ticks, 
                                quiesced, stack, o, lc, lp, g, lv, wasSet, ro, 
                                co, cur, visR, visS, wasClosed, due, fs, 
-                               closedAtCall, h, v, ip >>
+                               closedAtCall, h, ch, v, ip >>
 
 cl_cas(self) == /\ pc[self] = "cl_cas"
                 /\ IF closed[ROOT]
@@ -1438,7 +1516,7 @@ cl_cas(self) == /\ pc[self] = "cl_cas"
                                 closeBeforeFlush, loopEndedOk, hnd, ticks, 
                                 quiesced, stack, o, lc, lp, g, lv, wasSet, ro, 
                                 co, cur, visR, visS, wasClosed, due, fs, 
-                                closedAtCall, h, v, ip >>
+                                closedAtCall, h, ch, v, ip >>
 
 cl_done(self) == /\ pc[self] = "cl_done"
                  /\ doneCh' = TRUE
@@ -1452,7 +1530,7 @@ cl_done(self) == /\ pc[self] = "cl_done"
                                  barrierOk, closeBeforeFlush, loopEndedOk, hnd, 
                                  ticks, quiesced, stack, o, lc, lp, g, lv, 
                                  wasSet, ro, co, cur, visR, visS, wasClosed, 
-                                 due, fs, closedAtCall, h, v, ip >>
+                                 due, fs, closedAtCall, h, ch, v, ip >>
 
 cl_wait(self) == /\ pc[self] = "cl_wait"
                  /\ IF ~DevCloseNoWait
@@ -1468,7 +1546,7 @@ cl_wait(self) == /\ pc[self] = "cl_wait"
                                  barrierOk, closeBeforeFlush, loopEndedOk, hnd, 
                                  ticks, quiesced, stack, o, lc, lp, g, lv, 
                                  wasSet, ro, co, cur, visR, visS, wasClosed, 
-                                 due, fs, closedAtCall, h, v, ip >>
+                                 due, fs, closedAtCall, h, ch, v, ip >>
 
 cl_report(self) == /\ pc[self] = "cl_report"
                    /\ IF ~WeakNoFinalPass
@@ -1497,7 +1575,8 @@ cl_report(self) == /\ pc[self] = "cl_report"
                                    closeReturned, lateCall, unflushed, rclosed, 
                                    barrierOk, closeBeforeFlush, loopEndedOk, 
                                    hnd, ticks, quiesced, o, lc, lp, g, lv, 
-                                   wasSet, ro, co, fs, closedAtCall, h, v, ip >>
+                                   wasSet, ro, co, fs, closedAtCall, h, ch, v, 
+                                   ip >>
 
 cl_purge(self) == /\ pc[self] = "cl_purge"
                   /\ IF ~DevPurgeAnyPass
@@ -1516,7 +1595,7 @@ cl_purge(self) == /\ pc[self] = "cl_purge"
                                   barrierOk, closeBeforeFlush, loopEndedOk, 
                                   hnd, ticks, quiesced, o, lc, lp, g, lv, 
                                   wasSet, ro, co, cur, visR, visS, wasClosed, 
-                                  due, fs, closedAtCall, h, v, ip >>
+                                  due, fs, closedAtCall, h, ch, v, ip >>
 
 cl_rclose(self) == /\ pc[self] = "cl_rclose"
                    /\ rclosed' = rclosed + 1
@@ -1532,7 +1611,7 @@ cl_rclose(self) == /\ pc[self] = "cl_rclose"
                                    loopEndedOk, hnd, ticks, quiesced, stack, o, 
                                    lc, lp, g, lv, wasSet, ro, co, cur, visR, 
                                    visS, wasClosed, due, fs, closedAtCall, h, 
-                                   v, ip >>
+                                   ch, v, ip >>
 
 cl_unmu(self) == /\ pc[self] = "cl_unmu"
                  /\ IF closeMu = self
@@ -1549,7 +1628,7 @@ cl_unmu(self) == /\ pc[self] = "cl_unmu"
                                  closeBeforeFlush, loopEndedOk, hnd, ticks, 
                                  quiesced, stack, o, lc, lp, g, lv, wasSet, ro, 
                                  co, cur, visR, visS, wasClosed, due, fs, 
-                                 closedAtCall, h, v, ip >>
+                                 closedAtCall, h, ch, v, ip >>
 
 cl_ret(self) == /\ pc[self] = "cl_ret"
                 /\ barrierOk' = (barrierOk /\ (promised <= delivered) /\ ~unflushed)
@@ -1564,7 +1643,7 @@ cl_ret(self) == /\ pc[self] = "cl_ret"
                                 unflushed, rclosed, closeBeforeFlush, hnd, 
                                 ticks, quiesced, stack, o, lc, lp, g, lv, 
                                 wasSet, ro, co, cur, visR, visS, wasClosed, 
-                                due, fs, closedAtCall, h, v, ip >>
+                                due, fs, closedAtCall, h, ch, v, ip >>
 
 closer(self) == cl_call(self) \/ cl_mu(self) \/ cl_cas(self)
                    \/ cl_done(self) \/ cl_wait(self) \/ cl_report(self)
@@ -1584,7 +1663,7 @@ f_wait == /\ pc[FINAL] = "f_wait"
                           rclosed, barrierOk, closeBeforeFlush, loopEndedOk, 
                           hnd, ticks, quiesced, stack, o, lc, lp, g, lv, 
                           wasSet, ro, co, cur, visR, visS, wasClosed, due, fs, 
-                          closedAtCall, h, v, ip >>
+                          closedAtCall, h, ch, v, ip >>
 
 f_pass == /\ pc[FINAL] = "f_pass"
           /\ IF ~closed[ROOT]
@@ -1611,7 +1690,7 @@ f_pass == /\ pc[FINAL] = "f_pass"
                           closeCalled, closeReturned, lateCall, unflushed, 
                           rclosed, barrierOk, closeBeforeFlush, loopEndedOk, 
                           hnd, ticks, quiesced, o, lc, lp, g, lv, wasSet, ro, 
-                          co, fs, closedAtCall, h, v, ip >>
+                          co, fs, closedAtCall, h, ch, v, ip >>
 
 f_q == /\ pc[FINAL] = "f_q"
        /\ quiesced' = TRUE
@@ -1623,7 +1702,7 @@ f_q == /\ pc[FINAL] = "f_q"
                        closeReturned, lateCall, unflushed, rclosed, barrierOk, 
                        closeBeforeFlush, loopEndedOk, hnd, ticks, stack, o, lc, 
                        lp, g, lv, wasSet, ro, co, cur, visR, visS, wasClosed, 
-                       due, fs, closedAtCall, h, v, ip >>
+                       due, fs, closedAtCall, h, ch, v, ip >>
 
 final == f_wait \/ f_pass \/ f_q
 
@@ -1635,7 +1714,7 @@ Next == ticker \/ final
            \/ (\E self \in ProcSet:  \/ report(self) \/ removeWithRLock(self)
                                      \/ clearMetrics(self) \/ pass(self)
                                      \/ purge(self) \/ subscope(self) \/ inc(self)
-                                     \/ update(self))
+                                     \/ closesub(self) \/ update(self))
            \/ (\E self \in Apps: app(self))
            \/ (\E self \in Passers: passer(self))
            \/ (\E self \in Closers: closer(self))
@@ -1646,6 +1725,7 @@ Spec == /\ Init /\ [][Next]_vars
                               /\ WF_vars(subscope(self))
                               /\ WF_vars(inc(self))
                               /\ WF_vars(update(self))
+                              /\ WF_vars(closesub(self))
                               /\ WF_vars(report(self))
                               /\ WF_vars(removeWithRLock(self))
                               /\ WF_vars(clearMetrics(self))
